@@ -638,7 +638,7 @@ func genCtxLookup(c *Ctx, n int, gpos bool) *gtab.LookupTable {
 // and starts a new child.
 
 var dslWorkerOps = []string{"dsl.parse", "dsl.total", "dsl.roundtrip", "dsl.modelrt", "dsl.rtseed", "dsl.goroutines", "dsl.flags",
-	"dsl.rtrepeat", "dsl.parserepeat", "dsl.meaning"}
+	"dsl.rtrepeat", "dsl.parserepeat", "dsl.meaning", "dsl.comments", "dsl.goroutinesrep"}
 
 var dslImpl = map[string]opFn{}
 
